@@ -1017,7 +1017,15 @@ class Variable(CanBehaveLikeAVariable[T]):
                     self._is_false_ = is_false
                 yield OperationResult({**sources, self._id_: value}, is_false, self)
         elif self._should_be_instantiated_:
-            yield from self._instantiate_using_child_vars_and_yield_results_(sources)
+            # the truth value of the result of a call only matters where the call itself is used as a condition, as an
+            # operand (e.g., of a comparison) a falsy result like 0 is a value like any other.
+            is_a_condition = (
+                isinstance(self._parent_, LogicalOperator)
+                or self is self._conditions_root_
+            )
+            yield from self._instantiate_using_child_vars_and_yield_results_(
+                sources, is_a_condition
+            )
         else:
             raise ValueError("Cannot evaluate variable.")
 
@@ -1026,7 +1034,7 @@ class Variable(CanBehaveLikeAVariable[T]):
         return self._is_inferred_ or self._predicate_type_
 
     def _instantiate_using_child_vars_and_yield_results_(
-        self, sources: Dict[int, HashedValue]
+        self, sources: Dict[int, HashedValue], is_a_condition: bool = True
     ) -> Iterable[OperationResult]:
         for kwargs in self._generate_combinations_for_child_vars_values_(sources):
             # Build once: unwrapped hashed kwargs for already provided child vars
@@ -1034,7 +1042,9 @@ class Variable(CanBehaveLikeAVariable[T]):
             instance = self._type_(**{k: hv.value for k, hv in bound_kwargs.items()})
             if self._predicate_type_ == PredicateType.SubClassOfPredicate:
                 instance = instance()
-            yield self._process_output_and_update_values_(instance, kwargs)
+            yield self._process_output_and_update_values_(
+                instance, kwargs, is_a_condition
+            )
 
     def _generate_combinations_for_child_vars_values_(
         self, sources: Optional[Dict[int, HashedValue]] = None
@@ -1058,13 +1068,17 @@ class Variable(CanBehaveLikeAVariable[T]):
         yield from combine(0, sources, {})
 
     def _process_output_and_update_values_(
-        self, instance: Any, kwargs: Dict[str, OperationResult]
+        self,
+        instance: Any,
+        kwargs: Dict[str, OperationResult],
+        is_a_condition: bool = True,
     ) -> OperationResult:
         """
         Process the predicate/variable instance and get the results.
 
         :param instance: The created instance.
         :param kwargs: The keyword arguments of the predicate/variable.
+        :param is_a_condition: Whether the result is used as a condition (its truth value matters).
         :return: The results' dictionary.
         """
         hv = HashedValue(instance)
@@ -1073,7 +1087,7 @@ class Variable(CanBehaveLikeAVariable[T]):
         values = {self._id_: hv}
         for d in kwargs.values():
             values.update(d.bindings)
-        return OperationResult(values, not bool(instance), self)
+        return OperationResult(values, is_a_condition and not bool(instance), self)
 
     @property
     def _name_(self):
